@@ -3,7 +3,7 @@ import itertools
 
 import numpy as np
 
-from harness.core import Prop, cz, cnat, clist
+from harness.core import Prop, cz, cnat, cbool, clist
 
 import porepy as pp
 from porepy.utils import array_operations as ao
@@ -46,55 +46,109 @@ class C34(Prop):
     id = "C34"
     props_file = "Props/C34.v"
     preamble = ("From Coq Require Import List ZArith Bool.\nImport ListNotations.\n"
-                "From PP Require Import Model.C34.\n")
-    n_cases = (500, 12000)
+                "From PP Require Import Model.C34 Model.C34b.\n")
+    n_cases = (400, 12000)
     design_ref = "DESIGN.md §5 C34"
     level_text = (
-        "Coq theorems over a faithful executable transcription of uniquify_point_set / "
-        "_unique_points_in_cluster (norm sort, norm clustering against the first norm of the "
-        "cluster, first-match merging with replacement by the smaller original index, "
-        "concatenation, final reordering; exact integer arithmetic, sqrt eliminated by squaring). "
-        "Proved for all inputs: the norm-boundary lemma (reverse triangle inequality via "
-        "Cauchy-Schwarz); C34_one_per_cluster_partial = the whole property (points at new_2_old, "
-        "new_2_old increasing, every kept index the first member of its cluster, old_2_new "
-        "linking every point to its cluster) for every well-separated input, tol, dimension and "
-        "norm-sorting permutation UNDER THE GUARD that no norm-cluster boundary separates two "
-        "close points; C34_one_per_cluster_refuted = without the guard the code violates the "
-        "property (open known finding); C34_one_per_cluster_chained = for the chained variant of "
-        "the clustering the guard is a theorem and the full property holds.  The model is tied "
-        "to the code on every run (Coq compares unique points, new_2_old and old_2_new); the "
-        "property itself, and ismember_columns / intersect_sets against brute force, are "
-        "evaluated on the implementation's outputs by an exact oracle.")
+        "Coq theorems over faithful executable transcriptions (exact integer arithmetic, sqrt "
+        "eliminated by squaring).  uniquify_point_set / _unique_points_in_cluster: the norm-boundary "
+        "lemma (reverse triangle inequality via Cauchy-Schwarz); C34_one_per_cluster_partial(_own_sort) "
+        "= the whole property (points at new_2_old, new_2_old increasing, every kept index the first "
+        "member of its cluster, old_2_new linking every point to its cluster) for every "
+        "well-separated input, tol, dimension and norm-sorting permutation (also for the model's own "
+        "stable argsort, whose sortedness is proved) UNDER THE GUARD that no norm-cluster boundary "
+        "separates two close points; C34_one_per_cluster_refuted = without the guard the code "
+        "violates the property (open known finding); C34_one_per_cluster_chained(_own_sort) = for the "
+        "chained variant of the clustering the guard is a theorem.  ismember_columns: for any integer "
+        "columns (negative entries included), both values of sort and ANY admissible result of the "
+        "internal np.argsort, membership equals brute-force column comparison and every returned "
+        "index points to an equal column of b (C34_ismember_bruteforce).  intersect_sets: for any "
+        "ball query meeting its contract, a_in_b / ia / ib equal brute-force comparison of all column "
+        "pairs and are sorted and duplicate free (C34_intersect_bruteforce); under the well-separated "
+        "guard (columns of b more than 2 tol apart) every column of a has at most one match "
+        "(C34_intersect_single_match).  All three models are tied to the code on every run (Coq "
+        "compares every output; for ismember_columns the argsort result captured from numpy is "
+        "checked against its contract inside Coq); the property is also evaluated on the "
+        "implementation's outputs by an exact brute-force oracle.")
     level_note = (
         "Trusted: Coq kernel + vm_compute; harness; float evaluation of the comparisons equals "
-        "their exact value on the generated data (coordinates integer/2^k with |x| <= 640, "
-        "tol = t/2^k: squares and sums exact, sqrt correctly rounded, the smallest non-zero "
-        "margin of a norm comparison is > 2^14 ulp); numba's argsort is some norm-sorting "
-        "permutation (the theorems hold for every such permutation, the executable model uses a "
-        "stable one; correspondence is compared where the result does not depend on the order "
-        "of equal norms).  NOT proved: ismember_columns and intersect_sets have no Coq model "
-        "(oracle only); that the stable argsort of the model is sorted is checked by execution, "
-        "not proved.  The code violates the property on the unchanged tree (open finding).")
+        "their exact value on the generated data (coordinates integer/2^k: |x| <= 640*2^-k, or "
+        "38-bit integers * 2^-26 near 2^10 with tol 2^-20 where coordinate differences and their "
+        "squares are exact and every norm comparison has a margin >= 2^20 ulp); numba's argsort in "
+        "uniquify_point_set is some norm-sorting permutation (theorems hold for every such "
+        "permutation; correspondence compared where the result does not depend on the order of "
+        "equal norms); scipy's KD-tree ball query meets query_contract (exactly the columns within "
+        "tol, each once; tol is a half-integer on integer columns so no distance equals tol); "
+        "np.unique(axis=1) = duplicate-free lexicographically sorted columns (only duplicate "
+        "freeness/same members enter the theorems).  The code violates the uniquify property on "
+        "the unchanged tree (open finding).")
     technique = ("Coq proof (reverse triangle inequality in squared form via Cauchy-Schwarz, chained "
                  "clustering never separates close points, loop invariants of the in-cluster merge "
-                 "and of the cluster assembly, sortedness of the final reordering) + vm_compute "
-                 "execution correspondence + exact brute-force oracle")
+                 "and of the cluster assembly, sortedness of the stable argsort; injectivity of the "
+                 "np.unique inverse index + searchsorted on a sorted permutation; set "
+                 "characterisation of the intersection vectors) + vm_compute execution "
+                 "correspondence + exact brute-force oracle")
     rule = ("uniquify: point sets built from clusters (diameter <= t/2) placed along the 2*dim axis "
-            "directions and on permuted/sign-flipped lattice directions at norms R + m*t +- small, "
-            "so that cluster norms are within a few tol of each other and clusters straddle the "
-            "norm-cluster boundaries; members shuffled; plus unconstrained small-integer point sets "
-            "(chains allowed, tie only); dims 1-3, scales 2^0, 2^-3, 2^-10; ismember_columns: random "
-            "small integer columns (sort True/False, 1-d arrays); intersect_sets: integer columns, "
-            "half-integer tolerance; non-trivial = at least two points merged and two clusters; "
-            "distinct by (case, output)")
+            "directions and on lattice directions at norms R + m*t +- small, so that cluster norms "
+            "are within a few tol of each other and clusters straddle the norm-cluster boundaries; "
+            "20% LARGE-coordinate sets (integers*2^-26 near 2^10, tol 2^-20, near-duplicates 1..18 "
+            "units apart that are not bit-identical, equal-norm clusters in different directions, "
+            "clusters 2^-10..2^-6 apart); members shuffled; unconstrained small-integer point sets "
+            "(chains allowed, tie only); dims 1-3; ismember_columns: SIGNED integer columns (ranges "
+            "such as [-3,3], [-7,-2], [-1,5]), deliberate pairs of different columns that collide "
+            "under positional encodings with base max+1 / max-min+1 in either digit order, repeated "
+            "columns in b, sort True/False, 1-d arrays; intersect_sets: signed integer columns, "
+            "half-integer tolerance, exact copies across the sets, empty b; non-trivial = at least "
+            "two points merged and two clusters / some but not all members; distinct by (case, output)")
     trusted = ["exactness of the float comparisons on dyadic data of bounded size (see level_note)",
-               "sqrt device: |n1-n2| > t  <=>  L > 0 and L^2 > 4 t^2 n1^2, L = n2^2 - n1^2 - t^2"]
-    assumptions = ["tol > 0; all points have the same dimension",
+               "sqrt device: |n1-n2| > t  <=>  L > 0 and L^2 > 4 t^2 n1^2, L = n2^2 - n1^2 - t^2",
+               "np.argsort(ind_b) inside ismember_columns: its captured result is checked in Coq "
+               "against sort_contract on every case (boolean checker sort_ind_ok, not proved "
+               "equivalent to the Prop contract)",
+               "scipy KDTree.query_ball_tree meets query_contract"]
+    assumptions = ["tol > 0; all points / columns of one call have the same dimension",
                    "oracle demands the cluster property only when every cluster has diameter <= tol/2 "
                    "and different clusters are >= 2 tol apart (the theorems need only < tol / >= tol)"]
 
     # ------------------------------------------------------------------ generation
+    def _gen_large(self, rng):
+        """Near-duplicates (not bit-identical) at coordinates ~2^10 with tol = 2^-20:
+        coordinates are integers * 2^-26 (38 significant bits: exact in binary64, as are all
+        coordinate differences and their squares).  Cluster centres have either exactly the
+        same norm (axis directions / sign flips) or norms >= 2^-3 apart, so that every norm
+        comparison of the code is decided with a margin >= 2^20 ulp."""
+        dim = rng.choice([1, 2, 2, 3, 3])
+        k, t, r = 26, 64, 9          # diameter <= 2*9*sqrt(3) < t/2
+        unit = 1 << 26
+        R = rng.choice([1 << 36, 3 << 35, 1000 * unit, 1023 * unit + 12345])
+        dirs = [(ax, sg) for ax in range(dim) for sg in (1, -1)]
+        rng.shuffle(dirs)
+        centres = []
+        for (ax, sg) in dirs[:rng.randint(1, len(dirs))]:
+            c = [0] * dim
+            c[ax] = sg * (R + rng.choice([0, 0, 0, 1, 2, 5]) * (unit >> 3))
+            centres.append(c)
+        if dim >= 2 and rng.random() < 0.5:
+            s = R // 5 + (unit >> 2)
+            c = [0] * dim
+            c[0], c[1] = 3 * s * rng.choice([1, -1]), 4 * s
+            centres.append(c)
+        if rng.random() < 0.5:      # a second cluster 2^-10 .. 2^-6 away from the first centre
+            c = list(centres[0])
+            c[rng.randrange(dim)] += rng.choice([1 << 16, 1 << 18, -(1 << 20)])
+            centres.append(c)
+        pts = []
+        for c in centres:
+            for _ in range(rng.randint(1, 4)):
+                pts.append([x + rng.randint(-r, r) for x in c])
+            if rng.random() < 0.3:
+                pts.append(list(pts[-1]))       # a bit-identical twin as well
+        rng.shuffle(pts)
+        return {"kind": "uniq", "dim": dim, "k": k, "t": t, "pts": pts}
+
     def _gen_uniq(self, rng, tier):
+        if rng.random() < 0.2:
+            return self._gen_large(rng)
         dim = rng.choice([1, 2, 2, 3, 3])
         k = rng.choice([0, 0, 3, 10])
         mode = rng.random()
@@ -150,20 +204,50 @@ class C34(Prop):
             if r < 0.7:
                 yield self._gen_uniq(rng, tier)
             elif r < 0.85:
-                nd = rng.choice([1, 2, 2, 3])
-                hi = rng.choice([1, 2, 3])
-                one_d = nd == 1 and rng.random() < 0.5
-                a = [[rng.randint(0, hi) for _ in range(nd)] for _ in range(rng.randint(1, 7))]
-                b = [[rng.randint(0, hi) for _ in range(nd)] for _ in range(rng.randint(1, 7))]
-                yield {"kind": "ismember", "nd": nd, "one_d": one_d, "a": a, "b": b,
-                       "sort": rng.random() < 0.5}
+                yield self._gen_ismember(rng)
             else:
                 nd = rng.choice([1, 2, 3])
-                hi = rng.choice([2, 3, 5])
-                a = [[rng.randint(0, hi) for _ in range(nd)] for _ in range(rng.randint(1, 7))]
-                b = [[rng.randint(0, hi) for _ in range(nd)] for _ in range(rng.randint(0, 7))]
+                lo, hi = rng.choice([(0, 2), (0, 3), (-2, 2), (-3, 3), (-5, 1)])
+                a = [[rng.randint(lo, hi) for _ in range(nd)] for _ in range(rng.randint(1, 7))]
+                b = [[rng.randint(lo, hi) for _ in range(nd)] for _ in range(rng.randint(0, 7))]
+                if b and rng.random() < 0.4:       # exact copies across the two sets
+                    a[rng.randrange(len(a))] = list(rng.choice(b))
                 yield {"kind": "intersect", "nd": nd, "a": a, "b": b,
                        "tol2": rng.choice([1, 1, 3, 5])}   # tol = tol2 / 2  (never a distance)
+
+    def _gen_ismember(self, rng):
+        """Signed integer columns; deliberate pairs of DIFFERENT columns that collide under
+        positional encodings sum(c[i] * B**i) / sum(c[i] * B**(nd-1-i)) with B = max+1 or
+        B = max-min+1 (only injective for entries in [0, B))."""
+        nd = rng.choice([1, 2, 2, 3, 3])
+        lo, hi = rng.choice([(0, 1), (0, 3), (-1, 1), (-2, 2), (-3, 3), (-4, 1), (-1, 5), (-7, -2)])
+        one_d = nd == 1 and rng.random() < 0.5
+        col = lambda: [rng.randint(lo, hi) for _ in range(nd)]
+        a = [col() for _ in range(rng.randint(1, 8))]
+        b = [col() for _ in range(rng.randint(1, 10))]
+        if nd >= 2 and rng.random() < 0.6:
+            allv = [x for c in a + b for x in c]
+            for B in {max(allv) + 1, max(allv) - min(allv) + 1}:
+                if B <= 0:
+                    continue
+                src = list(rng.choice(a + b))
+                i = rng.randrange(nd - 1)
+                for (d0, d1) in ((B, -1), (-B, 1)):
+                    for (p, q) in ((i, i + 1), (i + 1, i)):
+                        tw = list(src)
+                        tw[p] += d0
+                        tw[q] += d1
+                        if rng.random() < 0.5:
+                            # keep the twin inside the value range so that B is unchanged
+                            if not all(min(allv) <= x <= max(allv) for x in tw):
+                                continue
+                        (a if rng.random() < 0.5 else b).insert(0, tw)
+                        (b if src in a else a).append(list(src))
+            a, b = a[:10], b[:12]
+        if rng.random() < 0.3:
+            a[rng.randrange(len(a))] = list(rng.choice(b))
+        return {"kind": "ismember", "nd": nd, "one_d": one_d, "a": a, "b": b,
+                "sort": rng.random() < 0.5}
 
     # ------------------------------------------------------------------ implementation
     def run_impl(self, case):
@@ -185,8 +269,24 @@ class C34(Prop):
             else:
                 a = np.array(case["a"], dtype=int).T
                 b = np.array(case["b"], dtype=int).T
-            ismem, ia = ao.ismember_columns(a, b, sort=case["sort"])
-            return {"ismem": [bool(x) for x in ismem], "ia": [int(x) for x in ia]}
+            # capture what np.argsort returns inside the call (numpy's default sort is not
+            # stable: which twin of a repeated column of b is found is not specified)
+            calls = []
+            orig = np.argsort
+
+            def spy(*args, **kw):
+                r = orig(*args, **kw)
+                calls.append(r)
+                return r
+
+            np.argsort = spy
+            try:
+                ismem, ia = ao.ismember_columns(a, b, sort=case["sort"])
+            finally:
+                np.argsort = orig
+            assert calls and len(calls[-1]) == len(case["b"]), "np.argsort call not captured"
+            return {"ismem": [bool(x) for x in ismem], "ia": [int(x) for x in ia],
+                    "sort_ind": [int(x) for x in calls[-1]]}
         nd = case["nd"]
         a = np.array(case["a"], dtype=float).reshape((-1, nd)).T
         b = np.array(case["b"], dtype=float).reshape((-1, nd)).T
@@ -255,8 +355,16 @@ class C34(Prop):
 
     # ------------------------------------------------------------------ tie
     def coq_case(self, case, res):
-        if case["kind"] != "uniq":
-            return None
+        if case["kind"] == "ismember":
+            return (f"agree_ismember {cbool(case['sort'] and not case['one_d'])} "
+                    f"{clist(case['a'], _pt)} {clist(case['b'], _pt)} "
+                    f"{clist(res['sort_ind'], cnat)} "
+                    f"{clist(res['ismem'], cbool)} {clist(res['ia'], cnat)}")
+        if case["kind"] == "intersect":
+            return (f"agree_intersect {cz(case['tol2'])} {clist(case['a'], _pt)} "
+                    f"{clist(case['b'], _pt)} {clist(res['ia'], cnat)} {clist(res['ib'], cnat)} "
+                    f"{clist(res['a_in_b'], cbool)} "
+                    f"{clist(res['inter'], lambda l: clist(l, cnat))}")
         pts = case["pts"]
         norms = [sum(x * x for x in p) for p in pts]
         if len(set(norms)) != len(norms) and not self._well_separated(case, margin=False):
@@ -265,8 +373,13 @@ class C34(Prop):
                 f"{clist(res['n2o'], cnat)} {clist(res['o2n'], cnat)}")
 
     def coq_diag(self, case, res):
-        if case["kind"] != "uniq":
-            return None
+        if case["kind"] == "ismember":
+            return (f"ismember_with {cbool(case['sort'] and not case['one_d'])} "
+                    f"{clist(case['a'], _pt)} {clist(case['b'], _pt)} "
+                    f"{clist(res['sort_ind'], cnat)}")
+        if case["kind"] == "intersect":
+            return (f"intersect (bf_query {cz(case['tol2'])}) {clist(case['a'], _pt)} "
+                    f"{clist(case['b'], _pt)}")
         return f"uniquify {cz(case['t'])} {clist(case['pts'], _pt)}"
 
     def nontrivial(self, case, res):
